@@ -321,6 +321,33 @@ func (r *run) check() {
 	}
 	out.Reached["blob-delivered"] += delivered
 
+	// --- blobs the source held before the handler existed: fullSyncOnStart
+	// and validateOnStart are documented to bring them over. Both make one
+	// pass per start and do not retry a copy that failed, so this is demanded
+	// only of runs without planned faults (crashes and restarts may occur).
+	if len(r.cfg.Pre) > 0 && (r.cfg.FullSync || r.cfg.Validate) {
+		if len(r.p.Faults) > 0 {
+			out.Reached["pre-existing-blobs-with-faults(not-judged)"]++
+		} else {
+			n := 0
+			for _, bi := range r.cfg.Pre {
+				b := r.pool[bi]
+				ref := b.Ref.String()
+				if got, ok := dst.Get(ref); ok && bytes.Equal(got, b.Data) {
+					n++
+					continue
+				}
+				how := "fullSyncOnStart"
+				if !r.cfg.FullSync {
+					how = "validateOnStart"
+				}
+				r.viol("pre-existing-not-delivered", how, fmt.Sprintf("%s (%s, %d bytes) was in the source before the sync handler started and is not at the destination %d virtual seconds after the last restart although the handler was configured with %s and no fault was planned", r.nameOf(ref), ref, len(b.Data), r.cfg.BoundS, how), -1)
+				break
+			}
+			out.Reached["pre-existing-blob-delivered"] += n
+		}
+	}
+
 	// --- the second destination: same statement, checked at the end only
 	if r.cfg.Dests == 2 {
 		dst2 := r.w.Store("dst2")
